@@ -734,6 +734,9 @@ func runC20(c *run.Ctx) {
 	c.Set("histories_porcupine_unknown", tot.LinUnknown)
 	c.Set("histories_with_failing_subscribers", tot.WithFailures)
 	c.Set("subscription_requests_opening_two_streams", tot.Doubles)
+	// what the registry holds are subscriptions, not subscribers: the sequential history with one Subscriber value behind two
+	// subscriptions (C19) is part of what a concurrent history must be explainable by
+	c19SharedSubscriber(c, "c20-shared-subscriber")
 	c.Set("subscribers_failed_on_by_two_or_more_deliveries", tot.TwoFailers)
 	c.Set("failed_deliveries_checked_for_removal_by_the_end_of_their_publish", tot.FailedChecked)
 	c.Set("unsubscribes_overlapping_a_failing_publish", tot.UnsubDuringPh)
